@@ -38,6 +38,53 @@ class Finding:
         return "%s:%s:%s" % (self.kind, self.fn.name, self.loc)
 
 
+_RET_PARAM_LIBC = {"strcpy": 0, "strncpy": 0, "strcat": 0, "strncat": 0, "memcpy": 0, "memmove": 0, "memset": 0}
+
+
+def _returns_param(prog, fname, depth=0):
+    """index of the parameter a function always returns (possibly advanced inside the same string), or None"""
+    if fname in _RET_PARAM_LIBC:
+        return _RET_PARAM_LIBC[fname]
+    cache = prog.__dict__.setdefault("_returns_param_cache", {})
+    if fname in cache:
+        return cache[fname]
+    cache[fname] = None
+    g = prog.functions.get(fname) or prog.util_functions.get(fname)
+    if g is None or depth > 3 or not g.j.get("cfg"):
+        return None
+    g = getattr(g, "original", g)
+    names = [q["name"] for q in g.params]
+    res = set()
+    for r in g.returns():
+        if not r.children:
+            return None
+        e = r.children[0].strip()
+        if e.k == "DeclRefExpr" and e.j.get("dk") == "param" and e.j.get("name") in names:
+            res.add(names.index(e.j["name"]))
+        elif e.k == "CallExpr":
+            k2 = _returns_param(prog, e.j.get("callee"), depth + 1)
+            if k2 is None or k2 >= len(e.call_args()):
+                return None
+            a = e.call_args()[k2].strip()
+            # the argument may itself be such a call
+            hops = 0
+            while a.k == "CallExpr" and hops < 3:
+                k3 = _returns_param(prog, a.j.get("callee"), depth + 1)
+                if k3 is None or k3 >= len(a.call_args()):
+                    return None
+                a = a.call_args()[k3].strip()
+                hops += 1
+            if a.k == "DeclRefExpr" and a.j.get("dk") == "param" and a.j.get("name") in names:
+                res.add(names.index(a.j["name"]))
+            else:
+                return None
+        else:
+            return None
+    if len(res) == 1:
+        cache[fname] = list(res)[0]
+    return cache[fname]
+
+
 class State:
     __slots__ = ("env", "heap", "facts", "trail", "site", "maybe_null")
 
@@ -339,6 +386,10 @@ class OwnAnalysis:
                 return NULL
             if c in ("__builtin_alloca", "alloca"):
                 return UNK
+            # a function that hands its argument back (trim(s), stripbrackets(s), strcpy(d, ..)): the value is the argument's
+            k9 = _returns_param(self.prog, c) if getattr(self, "prog", None) is not None else None
+            if k9 is not None and k9 < len(s.call_args()):
+                return self.eval_rhs(st, s.call_args()[k9], node)
             return UNK
         loc = self.loc_of(s)
         if loc is not None:
@@ -480,7 +531,8 @@ class OwnAnalysis:
                     elif r.k == "DeclRefExpr" and render(r) in st.facts:
                         st.facts[lv] = st.facts[render(r)]        # copy of another verdict variable
                     elif r.k == "CallExpr":
-                        st.facts.pop(lv, None)
+                        if r.j.get("callee") not in ("asprintf", "vasprintf", "scandir"):     # their call element has just set the fact
+                            st.facts.pop(lv, None)
                     else:
                         st.facts.pop(lv, None)
             if loc is not None:
@@ -497,6 +549,13 @@ class OwnAnalysis:
             l9 = lhs.strip()
             if l9.k == "DeclRefExpr" and l9.j.get("dk") == "local" and rhs.strip().k == "BinaryOperator" and rhs.strip().j.get("op") == "=":
                 src = None          # a = b = alloc(): b stays the owner
+            elif l9.k == "DeclRefExpr" and l9.j.get("dk") == "local" and (l9.j.get("ct") or "").endswith("*") and src is not None \
+                    and st.env.get(src) not in (None, NULL, UNK):
+                # a plain local that was not followed so far becomes a second name of the object (it is followed from here on);
+                # the object is not given away by that
+                self.ptr_locals.add(l9.j["name"])
+                st.env[l9.j["name"]] = st.env.get(src)
+                return [st]
             if src is not None and rhs.strip().j.get("ct", "").endswith("*"):
                 obj = st.env.get(src)
                 if obj not in (None, NULL, UNK):
@@ -526,7 +585,7 @@ class OwnAnalysis:
                         st.facts[d["name"]] = st.facts[render(init)]
                     elif init.const_value() is not None:
                         st.facts[d["name"]] = "Z" if init.const_value() == 0 else "NZ"
-                    elif not (init.k == "CallExpr" and init.j.get("callee") in self.summaries):
+                    elif not (init.k == "CallExpr" and (init.j.get("callee") in self.summaries or init.j.get("callee") in ("asprintf", "vasprintf", "scandir"))):
                         st.facts.pop(d["name"], None)
             return [st]
         if k == "CallExpr":
